@@ -214,6 +214,10 @@ func runC06(r *core.Run) {
 	for _, h := range gen.HandFamily() {
 		cases = append(cases, c05Case{Kind: "hand", Hand: h.Label})
 	}
+	// DAGs whose root under-declares a size: whole-entity walks do not depend on it
+	for _, h := range gen.HandLiars() {
+		cases = append(cases, c05Case{Kind: "hand", Hand: h.Label})
+	}
 	// decodable shard DAGs neither writer emits: child shards of another fanout
 	// (prefix width) than their parent
 	for _, l := range gen.HandShardLabels() {
